@@ -544,37 +544,46 @@ def forwarder_cases(res, rng, lines, impl_out, count, tag0):
         script = []
         expected = []
         steps = 0
-        while (todo or steps < 3) and steps < 60:
-            if todo and rng.random() < 0.5:
-                e, (s, d) = todo.pop(0)
-                f.on_producer_update(e, True)
-                lines.append(f'fev {e.event_id} {e.phenomenon_name} {e.pattern_name} {int(s)} {d}')
-                impl_out.append('ok')
-                script.append(['event', e.event_id, e.phenomenon_name])
-                if e.phenomenon_name in phs and actions[phs.index(e.phenomenon_name)] is not None:
-                    expected.append((actions[phs.index(e.phenomenon_name)], e))
-            else:
-                steps += 1 if not todo else 0
-                n0 = len(rec.seen)
-                ret = f.update()
-                new = rec.seen[n0:]
-                lines.append('fupd')
-                script.append(['update'])
-                if not new:
-                    pub = '-'
-                elif len(new) == 1:
-                    x = new[0]
-                    pub = f"{x.event_id} {x.timestamp} {x.data} {x.phenomenon_name} {x.pattern_name} {x.action_name} {1 if x.success else 0}"
-                else:
-                    pub = 'more-than-one'
-                impl_out.append(f"{1 if ret else 0} {pub}")
-        for _ in range(len(evs) + 2):   # drain
-            n0 = len(rec.seen)
-            ret = f.update()
-            new = rec.seen[n0:]
+        try:
+          while (todo or steps < 3) and steps < 60:
+              if todo and rng.random() < 0.5:
+                  e, (s, d) = todo.pop(0)
+                  f.on_producer_update(e, True)
+                  lines.append(f'fev {e.event_id} {e.phenomenon_name} {e.pattern_name} {int(s)} {d}')
+                  impl_out.append('ok')
+                  script.append(['event', e.event_id, e.phenomenon_name])
+                  if e.phenomenon_name in phs and actions[phs.index(e.phenomenon_name)] is not None:
+                      expected.append((actions[phs.index(e.phenomenon_name)], e))
+              else:
+                  steps += 1 if not todo else 0
+                  n0 = len(rec.seen)
+                  ret = f.update()
+                  new = rec.seen[n0:]
+                  lines.append('fupd')
+                  script.append(['update'])
+                  if not new:
+                      pub = '-'
+                  elif len(new) == 1:
+                      x = new[0]
+                      pub = f"{x.event_id} {x.timestamp} {x.data} {x.phenomenon_name} {x.pattern_name} {x.action_name} {1 if x.success else 0}"
+                  else:
+                      pub = 'more-than-one'
+                  impl_out.append(f"{1 if ret else 0} {pub}")
+          for _ in range(len(evs) + 2):   # drain
+              n0 = len(rec.seen)
+              ret = f.update()
+              new = rec.seen[n0:]
+              lines.append('fupd')
+              x = new[0] if new else None
+              impl_out.append(f"{1 if ret else 0} " + ('-' if x is None else f"{x.event_id} {x.timestamp} {x.data} {x.phenomenon_name} {x.pattern_name} {x.action_name} {1 if x.success else 0}"))
+        except Exception as ex:   # noqa  an exception escaping the forwarder / handler / action is a finding
+            case = {'kind': 'forwarder', 'phenomena': [[phs[i], has_action[i]] for i in range(nph)], 'script': script}
+            res.add_case(case, nontrivial=True)
+            res.violations.append(Violation('forwarder-raised', f"forwarder.update() raised {ex.__class__.__name__}: {ex} "
+                                            f"(an action was executed with a complex event it was not triggered by?)", case))
+            impl_out.append('raised')
             lines.append('fupd')
-            x = new[0] if new else None
-            impl_out.append(f"{1 if ret else 0} " + ('-' if x is None else f"{x.event_id} {x.timestamp} {x.data} {x.phenomenon_name} {x.pattern_name} {x.action_name} {1 if x.success else 0}"))
+            continue
         case = {'kind': 'forwarder', 'phenomena': [[phs[i], has_action[i]] for i in range(nph)], 'script': script}
         res.add_case(case, nontrivial=True)
         res.count('forwarder_batches')
